@@ -4,6 +4,7 @@ use serde_json::Value;
 pub mod c01;
 pub mod c04;
 pub mod c05;
+pub mod c06;
 pub mod c14;
 
 pub fn run(id: &str, eng: &Engine) {
@@ -11,6 +12,7 @@ pub fn run(id: &str, eng: &Engine) {
         "C01" => c01::run(eng),
         "C04" => c04::run(eng),
         "C05" => c05::run(eng),
+        "C06" => c06::run(eng),
         "C14" => c14::run(eng),
         _ => {
             println!("INCONCLUSIVE unknown property {id}");
@@ -24,6 +26,7 @@ pub fn replay(id: &str, eng: &Engine, stage: &str, case: &Value) -> CaseResult {
         "C01" => c01::replay(eng, stage, case),
         "C04" => c04::replay(eng, stage, case),
         "C05" => c05::replay(eng, stage, case),
+        "C06" => c06::replay(eng, stage, case),
         "C14" => c14::replay(eng, stage, case),
         _ => Err(Failure::new("machinery", format!("unknown property {id}"))),
     }
